@@ -966,6 +966,197 @@ theorem hgrid_of_eps_zero (kb : FKB ι α) (cs : List (FCall ι)) (t : FState ι
     (h : (runFCalls kb cs t).2 ≤ 0) : (runFCalls kb cs t).2 = 0 :=
   le_antisymm h (runFCalls_amount_nonneg kb cs t)
 
+/-! ## 7'. the same, with the grid hypothesis about THIS RUN only -/
+
+/-- one reasoning step of `fInfer`: the upward sweep followed by the downward sweep -/
+def sweep (kb : FKB ι α) (up down : List (FCall ι)) (s : FState ι α) : FState ι α × α :=
+  let u := runFCalls kb up s
+  let d := runFCalls kb down u.1
+  (d.1, u.2 + d.2)
+
+/-- the state before the n-th sweep of the run that starts in `s` -/
+def sweepState (kb : FKB ι α) (up down : List (FCall ι)) (s : FState ι α) : Nat → FState ι α
+  | 0 => s
+  | n + 1 => (sweep kb up down (sweepState kb up down s n)).1
+
+/-- no sweep of THIS run reports an amount in (0, eps] (the formal content of "exactly representable
+bounds": on dyadic data every reported amount is 0 or a multiple of the grid, which is coarser than
+eps) -/
+def RunExact (kb : FKB ι α) (up down : List (FCall ι)) (eps : α) (s : FState ι α) : Prop :=
+  ∀ n, (sweep kb up down (sweepState kb up down s n)).2 ≤ eps →
+    (sweep kb up down (sweepState kb up down s n)).2 = 0
+
+section run
+
+variable (kb : FKB ι α) (nodes : List ι) (up down : List (FCall ι)) (eps : α)
+
+theorem sweep_eq_append (s : FState ι α) : sweep kb up down s = runFCalls kb (up ++ down) s :=
+  (runFCalls_append kb up down s).symm
+
+theorem sweepState_zero (s : FState ι α) : sweepState kb up down s 0 = s := rfl
+
+theorem sweepState_succ (s : FState ι α) (n : Nat) :
+    sweepState kb up down s (n + 1) = (sweep kb up down (sweepState kb up down s n)).1 := rfl
+
+/-- the run from `s`, one sweep later, is the run from the result of the first sweep -/
+theorem sweepState_succ' (s : FState ι α) (n : Nat) :
+    sweepState kb up down s (n + 1) = sweepState kb up down (sweep kb up down s).1 n := by
+  induction n with
+  | zero => rfl
+  | succ n ih => rw [sweepState_succ, ih]; rfl
+
+theorem sweep_amount_nonneg (s : FState ι α) : 0 ≤ (sweep kb up down s).2 := by
+  rw [sweep_eq_append]
+  exact runFCalls_amount_nonneg kb _ s
+
+/-- at `eps ≤ 0` every run is exact -/
+theorem runExact_of_eps_zero (s : FState ι α) (heps : eps ≤ 0) : RunExact kb up down eps s :=
+  fun _ h => le_antisymm (le_trans h heps) (sweep_amount_nonneg kb up down _)
+
+/-- the unprimed grid hypothesis implies the one about this run -/
+theorem runExact_of_hgrid (s : FState ι α)
+    (hgrid : ∀ (cs : List (FCall ι)) (t : FState ι α),
+      (runFCalls kb cs t).2 ≤ eps → (runFCalls kb cs t).2 = 0) : RunExact kb up down eps s := by
+  intro n h
+  rw [sweep_eq_append] at h ⊢
+  exact hgrid _ _ h
+
+theorem sweep_congr {s s' : FState ι α} (h : SG s s') :
+    PG (sweep kb up down s) (sweep kb up down s') := by
+  rw [sweep_eq_append, sweep_eq_append]
+  exact runFCalls_congr kb _ h
+
+/-- on a state where every call of the two sweeps is the identity, so is the sweep -/
+theorem sweep_of_callFix (r : FState ι α) (h : ∀ c ∈ up ++ down, CallFix kb c r) :
+    (sweep kb up down r).2 = 0 ∧ SG (sweep kb up down r).1 r := by
+  rw [sweep_eq_append]
+  exact runFCalls_of_callFix kb (up ++ down) r h
+
+/-- once a sweep of the run starts in a fixpoint, every later sweep starts in the same tables and
+reports `0` -/
+theorem sweepState_of_callFix (s : FState ι α) (n0 : Nat)
+    (h : ∀ c ∈ up ++ down, CallFix kb c (sweepState kb up down s n0)) (m : Nat) :
+    SG (sweepState kb up down s (n0 + m)) (sweepState kb up down s n0) ∧
+      (sweep kb up down (sweepState kb up down s (n0 + m))).2 = 0 := by
+  induction m with
+  | zero => exact ⟨SG.refl _, (sweep_of_callFix kb up down _ h).1⟩
+  | succ m ih =>
+    have hfix : ∀ c ∈ up ++ down, CallFix kb c (sweepState kb up down s (n0 + m)) :=
+      fun c hc => (h c hc).congr ih.1.symm
+    have h1 := sweep_of_callFix kb up down _ hfix
+    have hsg : SG (sweepState kb up down s (n0 + (m + 1))) (sweepState kb up down s n0) := by
+      rw [← Nat.add_assoc, sweepState_succ]
+      exact h1.2.trans ih.1
+    exact ⟨hsg, (sweep_of_callFix kb up down _ (fun c hc => (h c hc).congr hsg.symm)).1⟩
+
+/-- a run that reaches a fixpoint before sweep `n0` and reports nothing in (0, eps] before that is
+exact -/
+theorem runExact_of_callFix (s : FState ι α) (n0 : Nat)
+    (h : ∀ c ∈ up ++ down, CallFix kb c (sweepState kb up down s n0))
+    (hpre : ∀ n, n < n0 → (sweep kb up down (sweepState kb up down s n)).2 ≤ eps →
+      (sweep kb up down (sweepState kb up down s n)).2 = 0) : RunExact kb up down eps s := by
+  intro n hle
+  by_cases hn : n < n0
+  · exact hpre n hn hle
+  · obtain ⟨m, rfl⟩ : ∃ m, n = n0 + m := ⟨n - n0, by omega⟩
+    exact (sweepState_of_callFix kb up down s n0 h m).2
+
+/-- a sweep that reports `0` and leaves the number of stored groundings unchanged returns the same
+tables, and every call of the two sweeps is the identity on what it returns -/
+theorem callFix_of_sweep (hw : FolAmount.WorldsInUnit kb) (t : FState ι α) (ht : SInUnit t)
+    (hnt : SNodup t)
+    (hcov : ∀ c ∈ up ++ down, cnode c ∈ nodes ∧ ∀ j ∈ (kb (cnode c)).ops, j ∈ nodes)
+    (h0 : (sweep kb up down t).2 = 0)
+    (hng : nGroundings nodes (sweep kb up down t).1 = nGroundings nodes t) :
+    SG t (sweep kb up down t).1 ∧ ∀ c ∈ up ++ down, CallFix kb c (sweep kb up down t).1 := by
+  rw [sweep_eq_append] at h0 hng ⊢
+  obtain ⟨hid, hfix⟩ :=
+    runFCalls_zero_sameCount_fix kb hw nodes (up ++ down) t ht hnt hcov h0 hng
+  have hsg : SG t (runFCalls kb (up ++ down) t).1 := fun k => (hid k).symm
+  exact ⟨hsg, fun c hc => (hfix c hc).congr hsg⟩
+
+/-- when `fInfer` returns `converged = true`, its LAST sweep is a sweep of the run from `s`: it
+started in `sweepState … s n` for some `n < fuel` (in range, every grounding stored once), reported
+at most `eps`, left the number of stored groundings unchanged, and the returned state is its
+result -/
+theorem fInfer_converged_last_sweep' (hw : FolAmount.WorldsInUnit kb) (fuel : Nat)
+    (s : FState ι α) (hs : SInUnit s) (hn : SNodup s)
+    (hconv : (fInfer kb nodes up down eps fuel s).converged = true) :
+    ∃ n, n < fuel ∧ SInUnit (sweepState kb up down s n) ∧ SNodup (sweepState kb up down s n) ∧
+      (sweep kb up down (sweepState kb up down s n)).2 ≤ eps ∧
+      nGroundings nodes (sweep kb up down (sweepState kb up down s n)).1 =
+        nGroundings nodes (sweepState kb up down s n) ∧
+      (fInfer kb nodes up down eps fuel s).state =
+        (sweep kb up down (sweepState kb up down s n)).1 := by
+  induction fuel generalizing s with
+  | zero => simp [fInfer] at hconv
+  | succ m ih =>
+    by_cases hc : (runFCalls kb up s).2 + (runFCalls kb down (runFCalls kb up s).1).2 ≤ eps ∧
+        nGroundings nodes (runFCalls kb down (runFCalls kb up s).1).1 = nGroundings nodes s
+    · rw [fInfer_succ_pos kb nodes up down eps m s hc]
+      exact ⟨0, Nat.succ_pos _, hs, hn, hc.1, hc.2, rfl⟩
+    · rw [fInfer_succ_neg kb nodes up down eps m s hc] at hconv ⊢
+      obtain ⟨n, hlt, h1, h2, h3, h4, h5⟩ :=
+        ih (runFCalls kb down (runFCalls kb up s).1).1
+          (runFCalls_inUnit kb hw down _ (runFCalls_inUnit kb hw up s hs))
+          (runFCalls_snodup kb _ down (runFCalls_snodup kb s up hn)) hconv
+      refine ⟨n + 1, by omega, ?_⟩
+      rw [sweepState_succ']
+      exact ⟨h1, h2, h3, h4, h5⟩
+
+variable (hw : FolAmount.WorldsInUnit kb) (fuel : Nat) (s : FState ι α) (hs : SInUnit s)
+  (hn : SNodup s) (hconv : (fInfer kb nodes up down eps fuel s).converged = true)
+  (hexact : RunExact kb up down eps s)
+  (hcov : ∀ c ∈ up ++ down, cnode c ∈ nodes ∧ ∀ j ∈ (kb (cnode c)).ops, j ∈ nodes)
+include hw hs hn hconv hexact hcov
+
+/-- MAIN (b), grid hypothesis about this run only -/
+theorem fInfer_converged_callFix' :
+    0 ≤ eps ∧ SInUnit (fInfer kb nodes up down eps fuel s).state ∧
+      SNodup (fInfer kb nodes up down eps fuel s).state ∧
+      ∀ c ∈ up ++ down, CallFix kb c (fInfer kb nodes up down eps fuel s).state := by
+  obtain ⟨n, _, ht, hnt, hle, hng, hst⟩ :=
+    fInfer_converged_last_sweep' kb nodes up down eps hw fuel s hs hn hconv
+  have h0 := hexact n hle
+  have hinv := fInfer_inv kb nodes up down eps hw fuel s hs hn
+  have hfix := (callFix_of_sweep kb nodes up down hw _ ht hnt hcov h0 hng).2
+  rw [← hst] at hfix
+  exact ⟨by rw [← h0]; exact hle, hinv.1, hinv.2, hfix⟩
+
+/-- MAIN (a), grid hypothesis about this run only -/
+theorem fInfer_converged_sweeps' :
+    ((runFCalls kb up (fInfer kb nodes up down eps fuel s).state).2 = 0 ∧
+      ∀ k, (runFCalls kb up (fInfer kb nodes up down eps fuel s).state).1.get k =
+        (fInfer kb nodes up down eps fuel s).state.get k) ∧
+    ((runFCalls kb down (runFCalls kb up (fInfer kb nodes up down eps fuel s).state).1).2 = 0 ∧
+      ∀ k, (runFCalls kb down (runFCalls kb up (fInfer kb nodes up down eps fuel s).state).1).1.get k =
+        (fInfer kb nodes up down eps fuel s).state.get k) :=
+  sweeps_of_callFix kb up down _
+    (fInfer_converged_callFix' kb nodes up down eps hw fuel s hs hn hconv hexact hcov).2.2.2
+
+/-- … any list of calls drawn from the two sweeps, in any order -/
+theorem fInfer_converged_anyOrder' (cs' : List (FCall ι)) (hsub : ∀ c ∈ cs', c ∈ up ++ down) :
+    (runFCalls kb cs' (fInfer kb nodes up down eps fuel s).state).2 = 0 ∧
+      ∀ k, (runFCalls kb cs' (fInfer kb nodes up down eps fuel s).state).1.get k =
+        (fInfer kb nodes up down eps fuel s).state.get k :=
+  runFCalls_of_callFix kb cs' _ (fun c hc =>
+    (fInfer_converged_callFix' kb nodes up down eps hw fuel s hs hn hconv hexact hcov).2.2.2 c
+      (hsub c hc))
+
+/-- MAIN (c), grid hypothesis about this run only -/
+theorem fInfer_converged_again' (fuel' : Nat) :
+    (fInfer kb nodes up down eps (fuel' + 1) (fInfer kb nodes up down eps fuel s).state).steps = 1 ∧
+    (fInfer kb nodes up down eps (fuel' + 1) (fInfer kb nodes up down eps fuel s).state).total = 0 ∧
+    (fInfer kb nodes up down eps (fuel' + 1)
+      (fInfer kb nodes up down eps fuel s).state).converged = true ∧
+    ∀ k, (fInfer kb nodes up down eps (fuel' + 1)
+      (fInfer kb nodes up down eps fuel s).state).state.get k =
+        (fInfer kb nodes up down eps fuel s).state.get k :=
+  have h := fInfer_converged_callFix' kb nodes up down eps hw fuel s hs hn hconv hexact hcov
+  fInfer_of_callFix kb nodes up down eps _ h.2.2.2 h.1 fuel'
+
+end run
+
 /-! ## 8. non-vacuity -/
 
 section examples
@@ -1009,6 +1200,66 @@ example :
 example : CallFix exKB (.up 1) exR.state :=
   (fInfer_converged_callFix exKB [0, 1] [.up 1] [.down 1 none] 0 exKB_worlds 5 exS exS_inUnit
     exS_snodup exR_spec.1 (hgrid_of_eps_zero exKB) ex_cov).2.2.2 _ (by simp)
+
+/-- the same through the variant whose grid hypothesis is about this run only -/
+example : CallFix exKB (.down 1 none) exR.state :=
+  (fInfer_converged_callFix' exKB [0, 1] [.up 1] [.down 1 none] 0 exKB_worlds 5 exS exS_inUnit
+    exS_snodup exR_spec.1 (runExact_of_eps_zero exKB _ _ 0 exS le_rfl) ex_cov).2.2.2 _ (by simp)
+
+/-! the same run at `eps = 1/10000000` (the code's `1e-7`): the sweeps report 1, 0, 0, … -/
+
+/-- the state `fInfer` returned at `eps = 0` is the state before sweep 2 of the run -/
+private theorem exR_state : exR.state = sweepState exKB [.up 1] [.down 1 none] exS 2 := by
+  simp [exR, sweepState, sweep, fInfer, runFCalls, runFCall, nGroundings, fUp, fDown, fUpNot,
+    fDownNot, exKB, exS, FState.get, FState.set, Table.keys, Table.addg, Table.has, Table.find?,
+    Table.getD, aggRow, aggregate, negB, clamp01, Table.setB]
+
+private theorem ex_amount0 : (sweep exKB [.up 1] [.down 1 none] exS).2 = 1 := by
+  simp [sweep, runFCalls, runFCall, fUp, fDown, fUpNot, fDownNot, exKB, exS, FState.get,
+    FState.set, Table.keys, Table.addg, Table.has, Table.find?, Table.getD, aggRow, aggregate, negB,
+    clamp01, Table.setB]
+
+private theorem ex_amount1 :
+    (sweep exKB [.up 1] [.down 1 none] (sweepState exKB [.up 1] [.down 1 none] exS 1)).2 = 0 := by
+  simp [sweepState, sweep, runFCalls, runFCall, fUp, fDown, fUpNot, fDownNot, exKB, exS,
+    FState.get, FState.set, Table.keys, Table.addg, Table.has, Table.find?, Table.getD, aggRow,
+    aggregate, negB, clamp01, Table.setB]
+
+/-- this run is exact at `eps = 1e-7`: sweep 0 reports 1, sweep 1 reports 0, and sweep 2 starts in
+a fixpoint (by the `eps = 0` theorem), so that every later sweep reports 0 -/
+private theorem ex_runExact : RunExact exKB [.up 1] [.down 1 none] (1/10000000) exS := by
+  apply runExact_of_callFix exKB [.up 1] [.down 1 none] (1/10000000) exS 2
+  · rw [← exR_state]
+    exact (fInfer_converged_callFix' exKB [0, 1] [.up 1] [.down 1 none] 0 exKB_worlds 5 exS
+      exS_inUnit exS_snodup exR_spec.1 (runExact_of_eps_zero exKB _ _ 0 exS le_rfl) ex_cov).2.2.2
+  · intro n hn hle
+    have h01 : n = 0 ∨ n = 1 := by omega
+    rcases h01 with rfl | rfl
+    · rw [sweepState_zero, ex_amount0] at hle
+      norm_num at hle
+    · exact ex_amount1
+
+private theorem ex_conv' :
+    (fInfer exKB [0, 1] [.up 1] [.down 1 none] (1/10000000) 5 exS).converged = true ∧
+    (fInfer exKB [0, 1] [.up 1] [.down 1 none] (1/10000000) 5 exS).steps = 2 := by
+  simp [fInfer, runFCalls, runFCall, nGroundings, fUp, fDown, fUpNot, fDownNot, exKB, exS,
+    FState.get, FState.set, Table.keys, Table.addg, Table.has, Table.find?, Table.getD, aggRow,
+    aggregate, negB, clamp01, Table.setB]
+
+/-- all hypotheses of the primed theorems hold at `eps = 1e-7 > 0`; their conclusion: a second
+`fInfer` takes one sweep, reports 0, converges, and returns the same tables -/
+example :
+    (fInfer exKB [0, 1] [.up 1] [.down 1 none] (1/10000000) 3
+      (fInfer exKB [0, 1] [.up 1] [.down 1 none] (1/10000000) 5 exS).state).steps = 1 ∧
+    (fInfer exKB [0, 1] [.up 1] [.down 1 none] (1/10000000) 3
+      (fInfer exKB [0, 1] [.up 1] [.down 1 none] (1/10000000) 5 exS).state).total = 0 ∧
+    (fInfer exKB [0, 1] [.up 1] [.down 1 none] (1/10000000) 3
+      (fInfer exKB [0, 1] [.up 1] [.down 1 none] (1/10000000) 5 exS).state).converged = true ∧
+    ∀ k, (fInfer exKB [0, 1] [.up 1] [.down 1 none] (1/10000000) 3
+      (fInfer exKB [0, 1] [.up 1] [.down 1 none] (1/10000000) 5 exS).state).state.get k =
+        (fInfer exKB [0, 1] [.up 1] [.down 1 none] (1/10000000) 5 exS).state.get k :=
+  fInfer_converged_again' exKB [0, 1] [.up 1] [.down 1 none] (1/10000000) exKB_worlds 5 exS
+    exS_inUnit exS_snodup ex_conv'.1 ex_runExact ex_cov 2
 
 end examples
 
